@@ -36,6 +36,8 @@ impl SwiftField for Field65 {
     where
         Self: Sized,
     {
+        super::swift_utils::require_ascii(input, "Field 65")?;
+
         // Format: 1!a6!n3!a15d - DebitCredit + Date + Currency + Amount
         if input.len() < 10 {
             return Err(ParseError::InvalidFormat {
